@@ -17,8 +17,22 @@ pub fn evals(prop: &str) -> Vec<(&'static str, &'static str)> {
         match prop {
             "C06" => v.extend([("prop_same_tokens", "prop_same_tokens"), ("prop_sorted_derives", "prop_sorted_derives")]),
             "C09" => v.extend([("prop_frame", "prop_frame"), ("prop_switches", "prop_switches")]),
-            "C17" => v.extend([("prop_same_tokens", "prop_same_tokens"), ("prop_dedup_groups", "prop_dedup_groups"),
-                              ("hyp_c17", "hyp_c17"), ("hyp_dedup_renames", "hyp_dedup_renames"), ("known_F18", "known_F18"), ("known_F18_groups", "known_F18_groups"), ("known_F3_groups", "known_F3_groups")]),
+            // C17 runs on the case type c17_case (Corr/RunC17.v): a pair + the description-crate artefacts
+            // of the retained ids; the pair checkers are lifted (same tag names)
+            "C17" => {
+                v = vec![("corr_pair", "c17_corr_pair"),
+                         ("prop_same_tokens", "c17_prop_same_tokens"), ("prop_dedup_groups", "c17_prop_dedup_groups"),
+                         ("hyp_c17", "c17_hyp_c17"), ("hyp_dedup_renames", "c17_hyp_dedup_renames"),
+                         ("known_F18", "c17_known_F18"), ("known_F18_groups", "c17_known_F18_groups"),
+                         ("known_F3_groups", "c17_known_F3_groups"),
+                         ("corr_describe_retained", "corr_describe_retained"), ("corr_example_retained", "corr_example_retained"),
+                         ("prop_describe_retained", "prop_describe_retained"), ("prop_example_retained", "prop_example_retained"),
+                         ("hyp_retained_arts", "hyp_retained_arts"), ("hyp_retained_examples", "hyp_retained_examples"),
+                         ("hyp_retain_c17", "hyp_retain_c17"), ("hyp_retain_items", "hyp_retain_items"),
+                         ("hyp_retain_settings_valid", "hyp_retain_settings_valid"),
+                         ("hyp_both_ok", "c17_hyp_both_ok")];
+                return v;
+            }
             _ => {}
         }
         v.push(("hyp_both_ok", "hyp_both_ok"));
@@ -51,7 +65,7 @@ pub fn rule(prop: &str) -> &'static str {
         "C10" => "fault enumeration: for each well-formed base registry every entry id, every reference site and every field list receives one fault (wrong id / missing id / mixed fields), plus settings without compact / bits path, plus fault-free registries, plus the out-of-class stream outside:compact-field (compact fields with tuple / array / unit inner types: panic, model and implementation alike); non-trivial = distinct (registry, settings) with at least one generated item",
         "C06" => "pairs of runs on equal inputs: permuted / repeated builder histories and fresh settings objects; outputs must be token-identical; non-trivial = distinct pair with at least one generated item",
         "C09" => "pairs of settings differing in exactly one switch (root, docs, codec, alloc, compact path, bits path) over the arm-coverage corpus and random programs",
-        "C17" => "pairs (registry, consistently renumbered registry) and (registry, retain()-ed sub-registry)",
+        "C17" => "pairs (registry, consistently renumbered registry) and (registry, retain()-ed sub-registry: three root sets per registry - one random id, two random ids, an instantiation of a generic definition - alternately with the registry's random settings and with settings free of path-specific derives / substitutes); every retain pair carries, for up to 12 retained ids (old id, new id of scale-info's id map), type_description and scale_value_from_seed (2 seeds) on both registries and the real encode/decode round trips of each value against both registries",
         _ => "arm-coverage corpus x settings, then registries generated as programs (generic struct/enum definitions in nested modules + closed instantiations, interned in scale-info order) with random settings histories; non-trivial = distinct (registry, settings) with at least one generated item",
     }
 }
@@ -424,7 +438,7 @@ pub fn cases(prop: &str, tier: &str, ctx: &mut Ctx, rng: &mut Rng) {
                 let (rj, _) = reggen::build(&p);
                 regs.push(rj);
             }
-            for rj in &regs {
+            for (ri, rj) in regs.iter().enumerate() {
                 let reg = reggen::to_registry(rj);
                 let n = reg.types.len();
                 let spec = rand_settings(rng, &reg, &SetCfg { derives: true, substitutes: true, switches: true, missing_paths: false });
@@ -440,15 +454,55 @@ pub fn cases(prop: &str, tier: &str, ctx: &mut Ctx, rng: &mut Rng) {
                     let r2 = reggen::to_registry(&r2j);
                     ctx.push_pair_perm("renumbered", "renumbered", (&reg, &spec), (&r2, &spec), &perm);
                 }
-                // restriction to the types reachable from a chosen set of ids (scale-info's own retain)
+                // restriction to the types reachable from a chosen set of ids (scale-info's own retain):
+                // one root, two roots, a root that is an instantiation of a generic definition
                 if n > 0 {
-                    let mut keep: Vec<u32> = vec![];
-                    for _ in 0..rng.range(1, 3) {
-                        keep.push(rng.below(n) as u32);
+                    let generic: Vec<u32> = reg.types.iter().filter(|t| t.ty.type_params.iter().any(|p| p.ty.is_some())
+                        && matches!(t.ty.type_def, scale_info::TypeDef::Composite(_) | scale_info::TypeDef::Variant(_)))
+                        .map(|t| t.id).collect();
+                    // roots are mostly entries that become items (so that the retained registry generates
+                    // something), otherwise any id
+                    let items: Vec<u32> = reg.types.iter().filter(|t| t.ty.path.segments.len() >= 2
+                        && matches!(t.ty.type_def, scale_info::TypeDef::Composite(_) | scale_info::TypeDef::Variant(_)))
+                        .map(|t| t.id).collect();
+                    let mut root = |rng: &mut Rng| -> u32 {
+                        if !items.is_empty() && rng.chance(2, 3) { *rng.pick(&items) } else { rng.below(n) as u32 }
+                    };
+                    for k in 0..3usize {
+                        let keep: Vec<u32> = match k {
+                            0 => vec![root(rng)],
+                            1 => vec![root(rng), root(rng)],
+                            _ => if generic.is_empty() { vec![rng.below(n) as u32] } else { vec![*rng.pick(&generic)] },
+                        };
+                        let mut r3 = reg.clone();
+                        let map = r3.retain(|id| keep.contains(&id));
+                        // every second retain pair: settings without derives / substitutes for specific paths
+                        // (only the bit-order substitutes of the RETAINED registry, whose paths both
+                        // registries have), so that the settings are valid for both registries
+                        let plain = (ri + k) % 2 == 1;
+                        let spec_k = if plain {
+                            let mut s = rand_settings(rng, &r3, &SetCfg { derives: false, substitutes: false, switches: true, missing_paths: false });
+                            if rng.chance(1, 2) {
+                                s.ops.push(OpSpec::DerivesAll(vec!["Debug".into(), "::codec::Encode".into()]));
+                            }
+                            if rng.chance(1, 3) {
+                                s.ops.push(OpSpec::AttrsAll(vec!["#[allow(dead_code)]".into()]));
+                            }
+                            s
+                        } else {
+                            spec.clone()
+                        };
+                        let seeds = vec![*rng.pick(&[42u64, 0, 1, 2, 3, 20, 30, u64::MAX]), rng.next_u64() >> rng.below(64)];
+                        let info = crate::c17::RetainInfo { roots: keep.clone(), ids: crate::c17::select_ids(&map, &keep), seeds };
+                        if plain {
+                            ctx.c17_counts.retain_pairs_plain_settings += 1;
+                        }
+                        if k == 2 && !generic.is_empty() {
+                            ctx.c17_counts.roots_generic_instantiation += 1;
+                        }
+                        let stream = ["retain:one-root", "retain:two-roots", "retain:generic-root"][k];
+                        ctx.push_pair_retain(stream, (&reg, &spec_k), (&r3, &spec_k), &info);
                     }
-                    let mut r3 = reg.clone();
-                    r3.retain(|id| keep.contains(&id));
-                    ctx.push_pair("retain", "retain", (&reg, &spec), (&r3, &spec));
                 }
             }
         }
